@@ -141,6 +141,39 @@ theorem default_covers_lossless (α : ι → Fin N → ℝ) (c : ι → ℝ) (NI
       by_contra hh; exact hlS (Finset.mem_filter.mpr ⟨Finset.mem_univ l, hh⟩)
     rw [h2 i l hi hlneg hli]
 
+/-- THE EQUALITY FORM, for `sum_age_force_equality`: when `c` has a negative entry the reduced vectors can be chosen to sum to `c` exactly
+    (so the forced-equality row of `_age_vectors_sum_to_c` is satisfiable with the automatic cones and covers whenever the full-cover
+    decomposition exists) -/
+theorem default_covers_lossless_eq (α : ι → Fin N → ℝ) (c : ι → ℝ) (NI : Finset ι) (hNI : ∀ l ∈ NI, c l < 0)
+    (i0 : ι) (hi0 : c i0 < 0)
+    (h : ∃ w : ι → ι → ℝ, (∀ k, OrdAgeCert α k (Finset.univ.erase k) (w k)) ∧ ∀ l, c l = ∑ k, w k l) :
+    ∃ ŵ : ι → ι → ℝ,
+      (∀ i, c i < 0 → OrdAgeCert α i (Finset.univ.filter (fun l => l ∉ NI ∧ l ≠ i)) (ŵ i)) ∧
+      (∀ i l, c i < 0 → c l < 0 → l ≠ i → ŵ i l = 0) ∧
+      (∀ l, ∑ i ∈ Finset.univ.filter (fun i => c i < 0), ŵ i l = c l) := by
+  obtain ⟨w, hw, hsum⟩ := h
+  have hred := sign_reduction Set.univ α Finset.univ w (fun k _ => ageF_of_cert α k (w k) (hw k))
+  have hc : (fun l => ∑ k ∈ Finset.univ, w k l) = c := funext (fun l => (hsum l).symm)
+  rw [hc] at hred
+  obtain ⟨ŵ, h1, h2, h3⟩ := signReduced_eq Set.univ α c hred i0 hi0
+  refine ⟨ŵ, ?_, h2, h3⟩
+  intro i hi
+  have hcert : OrdAgeCert α i (Finset.univ.filter (fun l => ¬ c l < 0)) (ŵ i) := by
+    apply cert_of_ageF α i _ (by simp [hi]) (ŵ i) (h1 i hi)
+    intro l hl hli
+    have hlneg : c l < 0 := by
+      by_contra hh; exact hl (Finset.mem_filter.mpr ⟨Finset.mem_univ l, hh⟩)
+    exact h2 i l hi hlneg hli
+  apply ordAge_cover_mono α i _ _ _ (ŵ i) _ hcert
+  · intro l hl
+    have hl' : ¬ c l < 0 := by simpa using hl
+    exact Finset.mem_filter.mpr ⟨Finset.mem_univ l, fun hN => hl' (hNI l hN), fun e => hl' (e ▸ hi)⟩
+  · intro l hl hlS
+    have hli : l ≠ i := (Finset.mem_filter.mp hl).2.2
+    have hlneg : c l < 0 := by
+      by_contra hh; exact hlS (Finset.mem_filter.mpr ⟨Finset.mem_univ l, hh⟩)
+    rw [h2 i l hi hlneg hli]
+
 /-! ### the same over a compact box: the sign-based covers of CONDITIONAL cones -/
 
 /-- a vector certified over the box with the full cover is an AGE function on the box -/
